@@ -204,7 +204,10 @@ class _Replace(Client):
 
     def should_inline(self, func, call, ctx):
         # the thread's own private helpers (`_join_retired`, `_start_successor`) are part of the protocol
-        return func.cls is self.pf.replacer and func.name.startswith("_") and not func.name.startswith("__")
+        if func.name == self.pf.init_process_name or not func.name.startswith("_") or func.name.startswith("__"):
+            return False
+        # ... and so are private helpers of the pool that the thread calls (`self.pool._join_process(p, ...)`)
+        return func.cls is self.pf.replacer or (func.cls is not None and func.cls in self.pf.fpool.repo_mro())
 
     def refine(self, test, state, ctx):
         if isinstance(test, ast.Compare) and len(test.ops) == 1 and isinstance(test.left, ast.Name) and test.left.id in self.vars \
